@@ -289,7 +289,17 @@ def run(rep):
                    [_sem.nt(x) for x in e.r.args] == [src] and not e.r.keywords
                    and _sem.nt(e.r.func) not in ('next', 'iter', 'list', 'tuple')]
             if adv:
-                buffered[what] = 'itertools.chain((next(%s),), %s)' % (src, src)
+                # an exhausted source (StopIteration right after its next()) is
+                # replaced by an empty iterator; otherwise the first item is
+                # chained back in front
+                stopped = any(c == 'EXCEPT(StopIteration)' and t and p_ == adv[0] + 1
+                              for c, t, p_ in ps.order)
+                if stopped:
+                    emp = [_sem.nt(e.r) for e in ps.events[adv[0] + 1:adv[0] + 2]
+                           if e.kind == 'call' and _sem.nt(e.r) in ('iter(())', 'iter([])')]
+                    buffered[what] = emp[0] if emp else 'iter(())'
+                else:
+                    buffered[what] = 'itertools.chain((next(%s),), %s)' % (src, src)
             elif via and starter_ok((dotted(via[0].r.func) or '').split('.')[-1]):
                 buffered[what] = _sem.nt(via[0].r)
             elif via and dotted(via[0].r.func) in ('list', 'tuple'):
